@@ -63,7 +63,9 @@ fn predict_h<const D: usize, const M: usize>() {
     for v in c.iter().chain(xs.iter()) {
         vassume!(*v >= -1.0e2 && *v <= 1.0e2);
     }
-    let pr = PolynomialRegressor { coef: c.clone() };
+    // through the constructor and the public field (a struct literal would stop compiling if a private field were added)
+    let mut pr = PolynomialRegressor::new(D);
+    pr.coef = c.clone();
     let out = pr.predict(&xs);
     vassert!(out.len() == M, "predict returned {} values for {} points", out.len(), M);
     let mut i = 0;
